@@ -2498,11 +2498,13 @@ class PositiveDefiniteLowRankUpdateMatrix(
 
     @property
     def grad_log_abs_det(self) -> NDArray:
-        return 2 * (self.inv @ (self.factor_matrix.array @ self.inner_pos_def_matrix))
+        return (2 * self._sign) * (
+            self.inv @ (self.factor_matrix.array @ self.inner_pos_def_matrix)
+        )
 
     def grad_quadratic_form_inv(self, vector: NDArray) -> NDArray:
         inv_matrix_vector = self.inv @ vector
-        return -2 * np.outer(
+        return (-2 * self._sign) * np.outer(
             inv_matrix_vector,
             self.inner_pos_def_matrix @ (self.factor_matrix.T @ inv_matrix_vector),
         )
